@@ -2,6 +2,8 @@ package main
 
 import (
 	"fmt"
+
+	"golang.org/x/tools/go/ssa"
 	"os"
 	"path/filepath"
 	"sort"
@@ -25,6 +27,7 @@ type guardSpec struct {
 	musts   []mustRule
 	noev    []string
 	protos  [][2]string // substring, reference
+	notafter [][2]string
 	refs    map[string]string
 	open    bool // open world: extra guards in the function are not reported
 	modeSet bool
@@ -96,6 +99,12 @@ func parseGuardsFile(path string) ([]*guardSpec, error) {
 				return nil, fmt.Errorf("%s:%d: order needs A < B", path, i+1)
 			}
 			cur.orders = append(cur.orders, [2]string{strings.TrimSpace(ab[0]), strings.TrimSpace(ab[1])})
+		case strings.HasPrefix(t, "notafter "):
+			ab := strings.SplitN(t[9:], " AFTER ", 2)
+			if len(ab) != 2 {
+				return nil, fmt.Errorf("%s:%d: notafter needs 'A AFTER B'", path, i+1)
+			}
+			cur.notafter = append(cur.notafter, [2]string{strings.TrimSpace(ab[0]), strings.TrimSpace(ab[1])})
 		case strings.HasPrefix(t, "mustpass "):
 			m := mustRule{}
 			rest := t[9:]
@@ -403,6 +412,39 @@ func checkEffects(p *Program, r *Report, f *FuncFacts, sp *guardSpec, sfn string
 		}
 		if ok {
 			r.pass("order", cons, p.pos(bs[0].Pos), fmt.Sprintf("%d site(s) of B all dominated by a site of A", len(bs)))
+		}
+	}
+	for _, na := range sp.notafter {
+		as, bs := f.matchEvents(renameParams(na[0], sp.params, cur)), f.matchEvents(renameParams(na[1], sp.params, cur))
+		cons := sfn + " :: " + na[0] + " never after " + na[1]
+		if len(as) == 0 || len(bs) == 0 {
+			r.fail("notafter", cons, fpos, fmt.Sprintf("anchor event missing in function (%d sites of A, %d sites of B)", len(as), len(bs)))
+			continue
+		}
+		bad := ""
+		for _, b := range bs {
+			// blocks reachable from b's block (strictly after b)
+			seen := map[*ssa.BasicBlock]bool{}
+			stack := append([]*ssa.BasicBlock{}, b.blk.Succs...)
+			for len(stack) > 0 {
+				x := stack[len(stack)-1]
+				stack = stack[:len(stack)-1]
+				if seen[x] {
+					continue
+				}
+				seen[x] = true
+				stack = append(stack, x.Succs...)
+			}
+			for _, a := range as {
+				if (a.blk == b.blk && a.idx > b.idx) || seen[a.blk] {
+					bad = fmt.Sprintf("%s can execute after %s", p.pos(a.Pos), p.pos(b.Pos))
+				}
+			}
+		}
+		if bad != "" {
+			r.fail("notafter", cons, fpos, bad)
+		} else {
+			r.pass("notafter", cons, fpos, fmt.Sprintf("%d site(s) of A, none reachable from a site of B", len(as)))
 		}
 	}
 	for _, m := range sp.musts {
